@@ -86,6 +86,8 @@ def execute(cs, wdir, profile="release", case_timeout=20):
         name = cfg if profile == "release" else cfg + "-" + profile
         t0 = time.time()
         evs = vlib.run_cases(exe, name, by[cfg], wdir, case_timeout=case_timeout)
+        for e in evs:
+            e["_cfgname"] = cfg
         log("[run] %s: %d cases %.1fs" % (name, len(by[cfg]), time.time() - t0))
         events.extend(evs)
     return events
@@ -407,7 +409,268 @@ def plan_C05(tier, rng):
     return cs, models, {"input_families": cs.tags, "configurations": cfgs}
 
 
-PLANS = {"C01": plan_C01, "C02": plan_C02, "C03": plan_C03, "C04": plan_C04, "C05": plan_C05}
+# ================================================================================================
+# shared corpora for the relational properties
+
+def decimal_float_corpus(rng, n_half, n_rand, longs=4):
+    out = []
+    for F in (F64, F32):
+        allb = list(range(F["emin"], F["emax"] + 1))
+        out += [(s, F) for (s, t) in gens.halfway_inputs(F, rng, rng.sample(allb, n_half), pats_per=1, long_ok=False, variants=False)]
+        out += [(s, F) for (s, t) in gens.lemire_row_inputs(F, rng, rng.sample(range(-300, 300) if F is F64 else range(-40, 38), max(4, n_half // 3)), per=1)]
+        out += [(s, F) for (s, t) in rng.sample(gens.fastpath_boundary(F, rng), max(10, n_half // 2))]
+        out += [(s, F) for (s, t) in gens.edge_inputs(F, rng)]
+        out += [(s, F) for (s, t) in gens.random_decimal(rng, n_rand)]
+        out += [(s, F) for (s, t) in gens.random_long_decimal(rng, longs)]
+    return out
+
+
+JUNK = ["", "+", "-", ".", "e", "e5", ".e5", "1e", "1e+", "1e-", "+.", "-.e", "1.", ".5", "1.e5", "1..2", "1e5e5", "1e5.5", "--1",
+        "+-1", "1+", "1-", "1e++5", " 1", "1 ", "1_0", "0x10", "1,5", "inf", "+inf", "-inf", "infinity", "INFINITY", "Infinit",
+        "infinityy", "in", "i", "nan", "NaN", "-NaN", "+nan", "na", "nann", "n", "NAN(", "1nan", "nan1", "inf1", "1inf", "infe5",
+        "1e5x", "1.5e3xyz", "12345678901234567890123456789012345678901234567890x", "0.0.0", "00", "-00.00e00", "1e0000000000005",
+        "1E5", "1E+5", "1e٣", "\xff", "1\x00", "\x001", "1e5\x80", "+1.2.3", "٣"]
+
+
+def junk_bytes():
+    out = []
+    for j in JUNK:
+        out.append(list(j.encode("utf-8").decode("unicode_escape").encode("latin-1", "replace")) if "\\x" in j else list(j.encode("utf-8")))
+    return out
+
+
+def random_bytes(rng, n, maxlen=40):
+    out = []
+    alpha = list(b"0123456789+-.eE_xXnNaAiIfFtTyY \x00\xff^p") + [0x80, 0xc3, 0xa9]
+    for _ in range(n):
+        ln = rng.choice([0, 1, 2, 3, 4, 6, 7, 8, 9, 12, 16, 17, 24, 33, maxlen])
+        mode = rng.random()
+        if mode < 0.5:
+            out.append([rng.choice(alpha) for _ in range(ln)])
+        elif mode < 0.8:
+            out.append([rng.choice(b"0123456789") for _ in range(ln)] + [rng.choice(alpha)] + [rng.choice(b"0123456789.e") for _ in range(rng.randrange(0, 5))])
+        else:
+            out.append([rng.randrange(256) for _ in range(ln)])
+    return out
+
+
+# ================================================================================================
+# C10
+
+def plan_C10(tier, rng):
+    cs = Cases()
+    quick = tier == "quick"
+    cfgs = ["default", "rf"] if quick else ["default", "rf", "compact", "crf", "pow2", "radix", "format"]
+    floats = [B(s) for (s, F) in decimal_float_corpus(rng, 25 if quick else 300, 150 if quick else 3000, longs=3 if quick else 40)]
+    inputs = junk_bytes() + random_bytes(rng, 700 if quick else 20000) + floats
+    i = 0
+    tys = list(gens.INT_TYPES) + ["f32", "f64"]
+    for data in inputs:
+        i += 1
+        ep = cs.new_ep()
+        place = "start" if i % 3 == 0 else "end"
+        tsel = ["f64", "f32" if i % 2 else "i64", tys[i % 12]]
+        for ty in tsel:
+            isf = ty in ("f32", "f64")
+            cs.parse(ep, ty, 0, data, [cfgs[i % len(cfgs)]], place=place, tag="standard")
+            cs.parse(ep, ty, 0, data, [cfgs[(i + 1) % len(cfgs)]], partial=True, place=place)
+            cs.parse(ep, ty, 0, data, [cfgs[(i + 1) % len(cfgs)]], wo=True, place=place, api="facade" if i % 5 == 0 else "core")
+        # a radix format too
+        r = rng.choice([2, 3, 8, 16, 27, 36])
+        rc = radix_cfgs(r, cfgs)
+        if rc:
+            ty = rng.choice(["f64", "f32", "u8", "i128", "u64"])
+            isf = ty in ("f32", "f64")
+            o = pf(exp=exp_char(r)) if isf else dict(PI_DEFAULT)
+            cs.parse(ep, ty, radix_fmt(r), data, [rc[i % len(rc)]], wo=True, opts=o, place=place, tag="radix")
+            cs.parse(ep, ty, radix_fmt(r), data, [rc[i % len(rc)]], wo=True, opts=o, partial=True, place=place)
+    models = [("MC_IntParse.tla", "MC_IntParse.cfg", 8, 900)]
+    return cs, models, {"input_families": cs.tags, "configurations": cfgs, "profiles": ["release", "dbg"]}
+
+
+# ================================================================================================
+# C11
+
+def plan_C11(tier, rng):
+    cs = Cases()
+    quick = tier == "quick"
+    cfgs = ["default", "rf"] if quick else ["default", "rf", "compact", "crf"]
+    floats = [B(s) for (s, F) in decimal_float_corpus(rng, 20 if quick else 200, 100 if quick else 2000, longs=2 if quick else 20)]
+    # every accepted float followed by each kind of trailing byte
+    tails = [B(t) for t in ["", "e", "e+", "E-", ".", "..", "_", "x", " ", "+", "-", "e5", "inf", "n", "\x00"]]
+    inputs = junk_bytes() + random_bytes(rng, 400 if quick else 8000)
+    for f in rng.sample(floats, min(len(floats), 120 if quick else 2000)):
+        inputs.append(f + rng.choice(tails))
+    for f in ["1", "12", "1.5", "1.5e3", "1e5", "-0", "+7.", ".5", "inf", "nan", "infinity", "NaN", "-inf"]:
+        for t in tails:
+            inputs.append(B(f) + t)
+    i = 0
+    tys = list(gens.INT_TYPES)
+    for data in inputs:
+        i += 1
+        ep = cs.new_ep()
+        c = cfgs[i % len(cfgs)]
+        for ty in ("f64", "f32" if i % 2 else tys[i % 12], tys[(i * 7) % 12]):
+            wo = (i % 4 == 0)
+            cs.parse(ep, ty, 0, data, [c], wo=wo, tag="standard")
+            cs.parse(ep, ty, 0, data, [c], wo=wo, partial=True, want_prefix=True)
+        r = rng.choice([2, 5, 16, 36])
+        rc = radix_cfgs(r, cfgs)
+        if rc:
+            ty = rng.choice(["f64", "u32", "i64"])
+            o = pf(exp=exp_char(r)) if ty == "f64" else dict(PI_DEFAULT)
+            cs.parse(ep, ty, radix_fmt(r), data, [rc[0]], wo=True, opts=o, tag="radix")
+            cs.parse(ep, ty, radix_fmt(r), data, [rc[0]], wo=True, opts=o, partial=True, want_prefix=True)
+
+    def phase2(events, cs2):
+        # after seeing n: the complete parser on the first n bytes
+        for e in events:
+            if e.get("want_prefix") and e["res"].get("k") == "ok" and 0 < e["res"]["n"] < e["len"]:
+                cs2.parse(e["ep"], e["ty"], e["fmt"], e["in"][:e["res"]["n"]], [e["_cfgname"]], wo=e["wo"], opts=e["opts"],
+                          tag="prefix")
+    models = [("MC_IntParse.tla", "MC_IntParse.cfg", 8, 900)]
+    return cs, models, {"input_families": cs.tags, "configurations": cfgs, "phase2": phase2}
+
+
+# ================================================================================================
+# C16
+
+def plan_C16(tier, rng):
+    cs = Cases()
+    quick = tier == "quick"
+    cfgs = ["default", "compact", "rf", "crf"] if quick else ["default", "compact", "rf", "crf", "pow2", "radix", "format", "nostd", "cf"]
+    floats = decimal_float_corpus(rng, 30 if quick else 400, 200 if quick else 5000, longs=3 if quick else 30)
+    i = 0
+    for (s, F) in floats:
+        i += 1
+        ep = cs.new_ep()
+        cs.parse(ep, F["name"], 0, s, cfgs, tag="parse-float")
+        if i % 3 == 0:
+            cs.parse(ep, F["name"], 0, s, cfgs, partial=True)
+    for data in junk_bytes() + random_bytes(rng, 200 if quick else 5000):
+        i += 1
+        ep = cs.new_ep()
+        ty = ["f64", "f32", "i32", "u64", "i8", "u128"][i % 6]
+        cs.parse(ep, ty, 0, data, cfgs, tag="parse-junk")
+        cs.parse(ep, ty, 0, data, cfgs, partial=True)
+    for ty in gens.INT_TYPES:
+        ep = cs.new_ep()
+        for s in rng.sample(c04_strings(ty, 10, rng, True), 12 if quick else 40):
+            data = list(s) if isinstance(s, bytes) else B(s)
+            cs.parse(ep, ty, 0, data, cfgs, tag="parse-int")
+        for v in rng.sample(gens.boundary_ints(ty, 10, rng, 6), 10 if quick else 25):
+            cs.write(ep, ty, 0, str(v), cfgs, tag="write-int")
+    for F in (F64, F32):
+        vals = gens.float_values(F, rng, nrand=150 if quick else 4000, per_binade=0,
+                                 binades=rng.sample(range((1 << F["ebits"]) - 1), 60 if quick else 250))
+        vals += gens.endpoint_family(F, rng, 19 if F is F64 else 8, 22 if F is F64 else 10)
+        for (bits, tag) in vals:
+            ep = cs.new_ep()
+            cs.write(ep, F["name"], 0, bits, cfgs, tag="write-float", want_back=True)
+
+    def phase2(events, cs2):
+        # compact output must parse (in the default build) to the same value
+        for e in events:
+            if e.get("want_back") and e["feat"]["compact"] and e["res"].get("k") == "ok":
+                cs2.parse(e["ep"], e["ty"], 0, e["res"]["out"], ["default"], back=e["id"], exact=True, tag="compact-parse-back")
+    return cs, [], {"input_families": cs.tags, "configurations": cfgs, "phase2": phase2}
+
+
+# ================================================================================================
+# C17
+
+def plan_C17(tier, rng):
+    cs = Cases()
+    quick = tier == "quick"
+    cfgs = ["default", "rf"] if quick else ["default", "rf", "compact", "crf"]
+    i = 0
+    for (s, F) in decimal_float_corpus(rng, 15 if quick else 200, 120 if quick else 3000, longs=2):
+        i += 1
+        ep = cs.new_ep()
+        c = [cfgs[i % len(cfgs)]]
+        for partial in (False, True):
+            for wo in (False, True):
+                cs.parse(ep, F["name"], 0, s, c, partial=partial, wo=wo, tag="parse")
+                cs.parse(ep, F["name"], 0, s, c, partial=partial, wo=wo, api="facade")
+    for data in junk_bytes() + random_bytes(rng, 150 if quick else 4000):
+        i += 1
+        ep = cs.new_ep()
+        c = [cfgs[i % len(cfgs)]]
+        ty = ["f64", "f32", "i32", "u64", "i8", "u128", "isize"][i % 7]
+        for partial in (False, True):
+            cs.parse(ep, ty, 0, data, c, partial=partial, tag="parse-junk")
+            cs.parse(ep, ty, 0, data, c, partial=partial, api="facade")
+    for ty in gens.INT_TYPES:
+        for r in (10, 2, 7, 16, 36):
+            rc = radix_cfgs(r, cfgs)
+            if not rc:
+                continue
+            ep = cs.new_ep()
+            for v in rng.sample(gens.boundary_ints(ty, r, rng, 4), 6 if quick else 20):
+                wo = (r != 10) or (v % 2 == 0)
+                cs.write(ep, ty, radix_fmt(r), str(v), [rc[0]], wo=wo, tag="write-int")
+                cs.write(ep, ty, radix_fmt(r), str(v), [rc[0]], wo=wo, api="facade")
+    optsets = [wf(), wf(max=3), wf(min=25), wf(pos=300, neg=-300), wf(pos=1, neg=-1), wf(trim=True), wf(exp=69, point=44),
+               wf(nan=B("nan"), inf=B("Infinity")), wf(max=1, round="truncate"), wf(min=60, neg=-320, pos=320)]
+    for F in (F64, F32):
+        vals = gens.float_values(F, rng, nrand=80 if quick else 2000, per_binade=0,
+                                 binades=rng.sample(range((1 << F["ebits"]) - 1), 40 if quick else 250))
+        for (bits, tag) in vals:
+            i += 1
+            ep = cs.new_ep()
+            c = [cfgs[i % len(cfgs)]]
+            cs.write(ep, F["name"], 0, bits, c, tag="write-float")
+            cs.write(ep, F["name"], 0, bits, c, api="facade")
+            o = optsets[i % len(optsets)]
+            cs.write(ep, F["name"], 0, bits, c, wo=True, opts=o, tag="write-float-opts")
+            cs.write(ep, F["name"], 0, bits, c, wo=True, opts=o, api="facade")
+            if "radix" in vlib.CONFIGS[c[0]]:
+                r = rng.choice([2, 3, 16, 36])
+                o2 = wf(exp=exp_char(r))
+                cs.write(ep, F["name"], radix_fmt(r), bits, c, wo=True, opts=o2, tag="write-float-radix")
+                cs.write(ep, F["name"], radix_fmt(r), bits, c, wo=True, opts=o2, api="facade")
+    return cs, [], {"input_families": cs.tags, "configurations": cfgs}
+
+
+# ================================================================================================
+# C19
+
+def plan_C19(tier, rng):
+    cs = Cases()
+    quick = tier == "quick"
+    cfgs = ["default", "compact", "rf"] if quick else ["default", "compact", "rf", "crf"]
+    i = 0
+    corpus = decimal_float_corpus(rng, 60 if quick else 600, 250 if quick else 6000, longs=4 if quick else 40)
+    for (s, F) in corpus:
+        i += 1
+        ep = cs.new_ep()
+        for c in cfgs:
+            cs.parse(ep, F["name"], 0, s, [c], wo=True, opts=pf(), tag="decimal")
+            cs.parse(ep, F["name"], 0, s, [c], wo=True, opts=pf(lossy=True))
+        if i % 4 == 0:
+            c = cfgs[i % len(cfgs)]
+            cs.parse(ep, F["name"], 0, s, [c], wo=True, opts=pf(), partial=True)
+            cs.parse(ep, F["name"], 0, s, [c], wo=True, opts=pf(lossy=True), partial=True)
+    for data in junk_bytes():
+        ep = cs.new_ep()
+        cs.parse(ep, "f64", 0, data, cfgs, wo=True, opts=pf(), tag="junk")
+        cs.parse(ep, "f64", 0, data, cfgs, wo=True, opts=pf(lossy=True))
+    for r in ([2, 8, 16, 3, 12, 36] if quick else [2, 4, 8, 16, 32, 3, 7, 12, 20, 36]):
+        rc = radix_cfgs(r, cfgs)
+        if not rc:
+            continue
+        ec = exp_char(r)
+        for F in (F64, F32):
+            for (s, tag) in gens.radix_inputs(F, r, rng, 4 if quick else 30, echar=chr(ec)):
+                ep = cs.new_ep()
+                cs.parse(ep, F["name"], radix_fmt(r), s, rc, wo=True, opts=pf(exp=ec), tag="radix")
+                cs.parse(ep, F["name"], radix_fmt(r), s, rc, wo=True, opts=pf(exp=ec, lossy=True))
+    models = [("MC_Ieee.tla", "MC_Ieee.cfg", 4, 900)]
+    return cs, models, {"input_families": cs.tags, "configurations": cfgs}
+
+
+PLANS = {"C01": plan_C01, "C02": plan_C02, "C03": plan_C03, "C04": plan_C04, "C05": plan_C05,
+         "C10": plan_C10, "C11": plan_C11, "C16": plan_C16, "C17": plan_C17, "C19": plan_C19}
 
 
 ASSUME = {
@@ -428,6 +691,25 @@ def run(prop, tier, seed, t0):
     cs, models, extra = PLANS[prop](tier, rng)
     log("[plan] %s %s: %d cases in %d episodes" % (prop, tier, len(cs.cases), cs.ep))
     events = execute(cs, wdir)
+    if "phase2" in extra:
+        cs2 = Cases()
+        cs2.nid = cs.nid
+        extra.pop("phase2")(events, cs2)
+        log("[plan] phase 2: %d cases" % len(cs2.cases))
+        events += execute(cs2, wdir)
+    if "profiles" in extra and "dbg" in extra["profiles"]:
+        # the same cases again in a build with debug assertions and overflow checks (ids shifted)
+        cs3 = Cases()
+        off = max(e["id"] for e in events) + 1
+        epoff = max(e["ep"] for e in events) + 1
+        for c in cs.cases:
+            c3 = dict(c)
+            c3["id"] += off
+            c3["ep"] += epoff
+            cs3.cases.append(c3)
+        events += execute(cs3, wdir, profile="dbg")
+    for e in events:
+        e.pop("_cfgname", None)
     mres = models_for(models, tier)
     t1 = time.time()
     result = vlib.judge(events, wdir)
